@@ -698,5 +698,3 @@ func Run(a hc.Args) {
 	// ------------------------------------------------------------ (b) block store
 	runBlockStore(a, rc, scratch, nDB)
 }
-
-
